@@ -29,6 +29,14 @@ func (n *normaliser) canonCompare(fd *ast.FuncDecl) {
 				c.Replace(rep)
 				n.p.mutated = true
 			}
+		case *ast.StarExpr:
+			// *(&x) is x
+			if u, ok := unparen(x.X).(*ast.UnaryExpr); ok && u.Op == token.AND {
+				if _, isLit := unparen(u.X).(*ast.CompositeLit); !isLit {
+					c.Replace(u.X)
+					n.p.mutated = true
+				}
+			}
 		case *ast.SliceExpr:
 			// x[0:n] is x[:n]
 			if x.Low != nil {
